@@ -7,7 +7,10 @@
                                g_typelib_get_dir_entry_by_gtype_name, g_typelib_get_dir_entry_by_error_domain,
                                g_typelib_matches_gtype_name_prefix (+ strsplit_iter_next)
     girepository/girmodule.c   add_directory_index_section (size of the section)
-    girepository/girepository.c g_irepository_find_by_gtype / find_by_gtype, find_by_error_domain
+    girepository/girepository.c g_irepository_find_by_gtype / find_by_gtype, find_by_error_domain,
+                               g_irepository_find_by_name, get_registered_status, register_internal,
+                               g_irepository_load_typelib: the lookup STATE MACHINE with its three caches
+                               (info_by_gtype, info_by_error_domain, unknown_gtypes)
 
   The minimal perfect hash of cmph (`cmph_search_packed`) is NOT modelled: it is the parameter
   `h : Str → Nat` of every definition that needs it.  Reads outside the directory or outside the
@@ -191,6 +194,277 @@ def findByErrorDomain (dom : Str) : Nat → List Lib → RFound
     | .entry i e => .entry k i e
     | .null => findByErrorDomain dom (k + 1) ls
     | .oob => .oob
+
+/-! ### the repository-level lookup state machine (girepository.c)
+
+  `GIRepositoryPrivate`: the two typelib tables and the three lookup caches.  A GType is
+  identified with its name and a GQuark with its string (`g_type_name` / `g_quark_to_string` are
+  injective), so the caches are keyed by strings here.  A `GHashTable` is a list in ITERATION
+  order; where a new key lands in that order is an argument of the operation (`pos`), and a
+  resize may reorder a table at any time (operation `rehash`). -/
+
+/-- a `GITypelib` as far as the repository-level lookups are concerned: the namespace it is
+    registered under, what the GType / error-domain scans read (`lib`), and what
+    `g_typelib_get_dir_entry_by_name` reads (the perfect hash and the directory index section) -/
+structure TL where
+  ns : Str
+  lib : Lib
+  h : Str → Nat := fun _ => 0
+  index : Option (List Nat) := none
+
+/-- a `GIBaseInfo` made by `_g_info_new_full (entry->blob_type, repository, NULL, typelib, entry->offset)`:
+    the typelib (by its namespace) and the directory entry -/
+structure Hit where
+  ns : Str
+  idx : Nat
+  entry : Entry
+  deriving DecidableEq, Repr
+
+/-- the answer of a repository-level lookup: an info, NULL, or a read outside a directory -/
+inductive RAns where
+  | info (hit : Hit)
+  | null
+  | oob
+  deriving DecidableEq, Repr
+
+structure Repo where
+  /-- `priv->typelibs` -/
+  eager : List TL := []
+  /-- `priv->lazy_typelibs` -/
+  lazy : List TL := []
+  /-- `priv->info_by_gtype` (positive answers) -/
+  infoByGType : List (Str × Hit) := []
+  /-- `priv->info_by_error_domain` (positive answers) -/
+  infoByErrorDomain : List (Str × Hit) := []
+  /-- `priv->unknown_gtypes` (negative answers) -/
+  unknownGTypes : List Str := []
+
+/-- every typelib a lookup may answer from -/
+def Repo.loaded (s : Repo) : List TL := s.eager ++ s.lazy
+
+/-- `g_hash_table_lookup (table, namespace)` on a typelib table -/
+def lookupNs (table : List TL) (ns : Str) : Option TL := table.find? (fun t => t.ns == ns)
+
+/-- `g_hash_table_lookup` on a cache -/
+def lookupCache (cache : List (Str × Hit)) (k : Str) : Option Hit :=
+  match cache.find? (fun p => p.1 == k) with
+  | some p => some p.2
+  | none => none
+
+/-- `find_by_gtype (table, &data, check_prefix)`: the loop over one table -/
+def findByGTypeIn (g : Str) (checkPrefix : Bool) : List TL → RAns
+  | [] => .null
+  | t :: ts =>
+    if checkPrefix && !matchesGTypePrefix t.lib.cprefix g then findByGTypeIn g checkPrefix ts
+    else match byGTypeName t.lib.dir g with
+      | .entry i e => .info ⟨t.ns, i, e⟩
+      | .null => findByGTypeIn g checkPrefix ts
+      | .oob => .oob
+
+/-- `entry = X; if (entry == NULL) entry = Y;` -/
+def orElse (a : RAns) (b : Unit → RAns) : RAns :=
+  match a with
+  | .null => b ()
+  | r => r
+
+/-- the four searches of `g_irepository_find_by_gtype`, in source order -/
+def searchGType (s : Repo) (g : Str) : RAns :=
+  orElse (findByGTypeIn g true s.eager) fun _ =>
+  orElse (findByGTypeIn g true s.lazy) fun _ =>
+  orElse (findByGTypeIn g false s.eager) fun _ =>
+  findByGTypeIn g false s.lazy
+
+/-- `g_irepository_find_by_gtype` after `g_type_name (gtype)` -/
+def findByGTypeOp (s : Repo) (g : Str) : Repo × RAns :=
+  match lookupCache s.infoByGType g with
+  | some hit => (s, .info hit)                                     -- `if (cached != NULL) return`
+  | none =>
+    if s.unknownGTypes.contains g then (s, .null)                   -- `g_hash_table_contains (unknown_gtypes)`
+    else match searchGType s g with
+      | .info hit => ({ s with infoByGType := (g, hit) :: s.infoByGType }, .info hit)
+      | .null => ({ s with unknownGTypes := g :: s.unknownGTypes }, .null)
+      | .oob => (s, .oob)
+
+/-- `g_hash_table_foreach (table, find_by_error_domain_foreach, &data)`: the first typelib of the
+    table that has the domain -/
+def findByErrorDomainIn (dom : Str) : List TL → RAns
+  | [] => .null
+  | t :: ts =>
+    match byErrorDomain t.lib.dir dom with
+    | .entry i e => .info ⟨t.ns, i, e⟩
+    | .null => findByErrorDomainIn dom ts
+    | .oob => .oob
+
+def searchErrorDomain (s : Repo) (dom : Str) : RAns :=
+  orElse (findByErrorDomainIn dom s.eager) fun _ => findByErrorDomainIn dom s.lazy
+
+/-- `g_irepository_find_by_error_domain` after `g_quark_to_string` -/
+def findByErrorDomainOp (s : Repo) (dom : Str) : Repo × RAns :=
+  match lookupCache s.infoByErrorDomain dom with
+  | some hit => (s, .info hit)
+  | none =>
+    match searchErrorDomain s dom with
+    | .info hit => ({ s with infoByErrorDomain := (dom, hit) :: s.infoByErrorDomain }, .info hit)
+    | r => (s, r)
+
+/-- `get_registered (repository, namespace, NULL)`: the loaded table first, then the lazy one -/
+def getRegistered (s : Repo) (ns : Str) : Option TL :=
+  match lookupNs s.eager ns with
+  | some t => some t
+  | none => lookupNs s.lazy ns
+
+/-- `g_irepository_find_by_name`; `g_return_val_if_fail (typelib != NULL, NULL)` answers NULL for a
+    namespace that is not loaded -/
+def findByNameOp (s : Repo) (ns name : Str) : RAns :=
+  match getRegistered s ns with
+  | none => .null
+  | some t =>
+    match byName t.h t.index t.lib.dir name with
+    | .entry i e => .info ⟨t.ns, i, e⟩
+    | .null => .null
+    | .oob => .oob
+
+/-- `get_registered_status (..., allow_lazy, ...) != NULL` (versions are C17's subject: one
+    version per namespace here) -/
+def isRegistered (s : Repo) (ns : Str) (allowLazy : Bool) : Bool :=
+  match lookupNs s.eager ns with
+  | some _ => true
+  | none =>
+    match lookupNs s.lazy ns with
+    | none => false
+    | some _ => allowLazy
+
+/-- does the guard chain of a statement of `register_internal` hold on the branch `lazy`? -/
+def guardHolds (lazy : Bool) (g : String) : Bool :=
+  if g = "if:lazy" then lazy else if g = "else:lazy" then !lazy else false
+
+/-- is `g_hash_table_remove_all (priv->unknown_gtypes)` executed by `register_internal` on the
+    branch `lazy`?  Read from the cache skeleton of the CURRENT source (Gen.cacheSites). -/
+def registerClearsUnknown (lazy : Bool) : Bool :=
+  Gen.cacheSites.any fun s =>
+    s.1 == "register_internal" && s.2.2.1 == "g_hash_table_remove_all" && s.2.2.2 == "unknown_gtypes"
+      && s.2.1.all (guardHolds lazy)
+
+/-- `g_hash_table_insert` of a new key: it lands somewhere in the iteration order -/
+def insertAt (table : List TL) (pos : Nat) (t : TL) : List TL := table.take pos ++ t :: table.drop pos
+
+/-- `register_internal (repository, source, lazy, typelib, error)` once the dependencies are loaded
+    (they are registrations of their own, earlier in the history).  `none` = `g_assert` failed.
+    A table holds a key at most once, so stealing the key removes every typelib of that namespace. -/
+def registerInternal (s : Repo) (t : TL) (lazy : Bool) (pos : Nat) : Option Repo :=
+  let s' : Option Repo :=
+    if lazy then
+      match lookupNs s.lazy t.ns with
+      | some _ => none                                              -- g_assert (!g_hash_table_lookup (lazy_typelibs))
+      | none => some { s with lazy := insertAt s.lazy pos t }
+    else
+      -- "Check if we are transitioning from lazily loaded state": steal, then insert into typelibs
+      some { s with lazy := s.lazy.filter (fun x => !(x.ns == t.ns)), eager := insertAt s.eager pos t }
+  match s' with
+  | none => none
+  | some r => some (if registerClearsUnknown lazy then { r with unknownGTypes := [] } else r)
+
+/-- `g_irepository_load_typelib (repository, typelib, flags, &error)`, and `require_internal` from
+    the point where the typelib file has been found and mapped: a namespace that is registered
+    already (lazily registered counts only when the caller allows lazy) is left alone. -/
+def loadOp (s : Repo) (t : TL) (lazy : Bool) (pos : Nat) : Option Repo :=
+  if isRegistered s t.ns lazy then some s else registerInternal s t lazy pos
+
+inductive Op where
+  | findByGType (g : Str)
+  | findByErrorDomain (dom : Str)
+  | findByName (ns name : Str)
+  | load (t : TL) (lazy : Bool) (pos : Nat)
+  /-- a resize of the hash tables: any reordering of the two typelib tables -/
+  | rehash (eager lazy : List TL)
+
+/-- one API call: the state after it and its answer (`none` = the process aborted) -/
+def step (s : Repo) : Op → Option (Repo × RAns)
+  | .findByGType g => some (findByGTypeOp s g)
+  | .findByErrorDomain d => some (findByErrorDomainOp s d)
+  | .findByName ns name => some (s, findByNameOp s ns name)
+  | .load t lazy pos =>
+    match loadOp s t lazy pos with
+    | some s' => some (s', .null)
+    | none => none
+  | .rehash e l => some ({ s with eager := e, lazy := l }, .null)
+
+/-- a history of calls: (state before the call, call, answer) for every call that ran -/
+def trace : Repo → List Op → List (Repo × Op × RAns)
+  | _, [] => []
+  | s, op :: ops =>
+    match step s op with
+    | none => []
+    | some (s', a) => (s, op, a) :: trace s' ops
+
+/-- the answers of a history -/
+def answers (s : Repo) (ops : List Op) : List RAns := (trace s ops).map (·.2.2)
+
+/-! the cache-free specification: what the lookups answer on a set of loaded typelibs -/
+
+/-- `g_irepository_find_by_gtype` without caches on the typelibs `libs` (loaded ones first, then
+    the lazily loaded ones): a pass that trusts the C prefixes, then a pass over everything -/
+def specFindByGType (libs : List TL) (g : Str) : RAns :=
+  orElse (findByGTypeIn g true libs) fun _ => findByGTypeIn g false libs
+
+def specFindByErrorDomain (libs : List TL) (dom : Str) : RAns := findByErrorDomainIn dom libs
+
+/-! what the history theorem is about (statements only; the proofs are in Lemmas/Lookup.lean) -/
+
+def liftFound (t : TL) : Found → RAns
+  | .entry i e => .info ⟨t.ns, i, e⟩
+  | .null => .null
+  | .oob => .oob
+
+/-- the invariant of the caches: a name in `unknown_gtypes` is absent from EVERY typelib a search
+    would look at (loaded or lazily loaded); a cached info is what the typelib-level lookup of a
+    typelib that is still loaded answers; a namespace is registered once -/
+structure Inv (s : Repo) : Prop where
+  unknown : ∀ g ∈ s.unknownGTypes, ∀ t ∈ s.loaded, byGTypeName t.lib.dir g = .null
+  gtype : ∀ p ∈ s.infoByGType, ∃ t ∈ s.loaded, t.ns = p.2.ns ∧
+    byGTypeName t.lib.dir p.1 = .entry p.2.idx p.2.entry
+  domain : ∀ p ∈ s.infoByErrorDomain, ∃ t ∈ s.loaded, t.ns = p.2.ns ∧
+    byErrorDomain t.lib.dir p.1 = .entry p.2.idx p.2.entry
+  nodup : (s.loaded.map (·.ns)).Nodup
+
+/-- what the caller (and GHashTable) must respect for a call made in state `s`:
+    * a typelib is never UNLOADED: the only way a typelib leaves a table is the lazy → loaded
+      transition of `register_internal`, and then the typelib registered in its place must have
+      the same directory (the same file mapped again);
+    * a resize of a hash table permutes it, nothing else. -/
+def OpOk (s : Repo) : Op → Prop
+  | .load t lazy _ => lazy = false → ∀ t' ∈ s.lazy, t'.ns = t.ns → t'.lib.dir = t.lib.dir
+  | .rehash e l => e.Perm s.eager ∧ l.Perm s.lazy
+  | _ => True
+
+def Admissible : Repo → List Op → Prop
+  | _, [] => True
+  | s, op :: ops => OpOk s op ∧ ∀ s' a, step s op = some (s', a) → Admissible s' ops
+
+/-- the clause "these lookups agree with repository-level find-by-…" for one answer, on the
+    typelibs `libs` loaded at that moment:
+    1. an info is the answer of the typelib-level lookup of a loaded typelib (of that namespace),
+    2. NULL is answered exactly when the typelib-level lookup of every loaded typelib answers NULL,
+    3. when at most one loaded typelib has the key, the answer is the cache-free search. -/
+def AgreesWith (by_ : TL → Found) (spec : RAns) (libs : List TL) (a : RAns) : Prop :=
+  (∀ hit, a = .info hit → ∃ t ∈ libs, t.ns = hit.ns ∧ by_ t = .entry hit.idx hit.entry)
+  ∧ (a = .null ↔ ∀ t ∈ libs, by_ t = .null)
+  ∧ ((∀ t ∈ libs, ∀ t' ∈ libs, by_ t ≠ .null → by_ t' ≠ .null → t = t') → a = spec)
+
+def AnswerOK (s : Repo) : Op → RAns → Prop
+  | .findByGType g, a =>
+    AgreesWith (fun t => byGTypeName t.lib.dir g) (specFindByGType s.loaded g) s.loaded a
+  | .findByErrorDomain d, a =>
+    AgreesWith (fun t => byErrorDomain t.lib.dir d) (specFindByErrorDomain s.loaded d) s.loaded a
+  | .findByName ns name, a =>
+    (∀ t ∈ s.loaded, t.ns = ns → a = liftFound t (byName t.h t.index t.lib.dir name))
+    ∧ ((∀ t ∈ s.loaded, t.ns ≠ ns) → a = .null)
+  | _, _ => True
+
+/-- the conclusion of C14_complete / C14_linear for one typelib: every local entry is found by
+    its own name, at its own position -/
+def NameComplete (t : TL) : Prop :=
+  ∀ i e, t.lib.dir.locals[i]? = some e → byName t.h t.index t.lib.dir e.name = .entry i e
 
 /-! ### size arithmetic -/
 
